@@ -92,6 +92,7 @@ Record inv2_task (s : state) (f : nat) : Prop := {
   i2_wait : forall i, tpc (tasks s f) = PWait i -> all_ok s (firstn i (imports g f));
   i2_late : (tpc (tasks s f) = PClear \/ tpc (tasks s f) = PReacquire \/ tpc (tasks s f) = PLink) ->
             all_ok s (imports g f);
+  i2_link : tpc (tasks s f) = PDone (Some FLink) -> all_ok s (imports g f);
   i2_dep : forall d, tpc (tasks s f) = PDone (Some (FDep d)) ->
            In d (imports g f) /\ exists e, tpc (tasks s d) = PDone (Some e);
   i2_res : match tpc (tasks s f) with
@@ -158,7 +159,7 @@ Proof. destruct l; cbn; [discriminate|auto]. Qed.
 Lemma inv2_step_self s f s' : inv1 g s -> inv2 s -> step g s f = Some s' -> inv2_task s' f.
 Proof.
   intros Hinv1 Hinv2 H. destruct Hinv2 as [Ht [Hrq Hroot]].
-  pose proof (Ht f) as I. destruct I as [Ifr Icy Iok Iwt Ilt Idp Irs Irc].
+  pose proof (Ht f) as I. destruct I as [Ifr Icy Iok Iwt Ilt Ilk Idp Irs Irc].
   destruct (step_spec g _ _ _ H) as (t' & cr & pe & tick & Hl & Htk & _).
   assert (Hself : tasks s' f = t') by (rewrite Htk; apply upd_same).
   assert (Hst : forall l, all_ok s l -> all_ok s' l) by (intros l; apply (all_ok_stable _ _ _ _ H)).
@@ -209,6 +210,8 @@ Proof.
     all: try (apply Ilt; auto; fail).
     + intros d [].
     + apply nth_error_None in Heqo. specialize (Iwt _ eq_refl). rewrite firstn_all2 in Iwt by assumption. assumption.
+  - (* link failure *)
+    clear Hself Htk. intros E0. apply Hst. local_cases Hl; cbn in E0; try discriminate. apply Ilt. auto.
   - (* failed dependency *)
     clear Hself Htk. intros d0 E0. local_cases Hl; cbn in E0; try discriminate; inversion E0; subst; clear E0.
     split; [eapply nth_error_In; eassumption|]. exists f0. eapply done_stable; eassumption.
@@ -234,9 +237,10 @@ Proof.
   split; [|split].
   - intros x. destruct (Nat.eq_dec x f) as [->|Hx]; [assumption|].
     destruct (step_other g _ _ _ x H Hx) as [E|(E & E' & Hin)].
-    + destruct (Ht x) as [Ifr Icy Iok Iwt Ilt Idp Irs Irc]. constructor; rewrite ?E; try assumption.
+    + destruct (Ht x) as [Ifr Icy Iok Iwt Ilt Ilk Idp Irs Irc]. constructor; rewrite ?E; try assumption.
       * intros Ho. destruct (Iok Ho) as (A & B & C & D). auto.
       * intros i Hi. apply Hst. auto.
+      * intros Hl. apply Hst. auto.
       * intros Hl. apply Hst. auto.
       * intros d Hd. destruct (Idp d Hd) as (A & e & B). split; [assumption|]. exists e.
         eapply done_stable; eassumption.
